@@ -154,6 +154,9 @@ impl Report {
         cov.insert("known_findings_matched".into(), json!(known_hit.iter().collect::<Vec<_>>()));
         cov.insert("new_violation_replays".into(), json!(replay_paths));
         cov.insert("machinery_errors".into(), json!(self.machinery_errors));
+        if crate::core::WIDE_DRAWS_SEEN.load(std::sync::atomic::Ordering::Relaxed) {
+            cov.insert("rng_note".into(), json!("Foca drew randomness through next_u64/fill_bytes: the word menu is calibrated for 32-bit draws only, so RNG outcomes were explored but not provably all of them"));
+        }
         let doc = json!({
             "property_id": self.property,
             "tier": self.tier,
